@@ -557,8 +557,50 @@ func mutate(rnd *hx.Rand, f *fox.Router, pool []string, methods []string, steps 
 			tr.commit()
 		}
 	}
+	txnRead := func(t *fox.Txn) {
+		// a point-in-time read of the open transaction (resets its copy-on-write cache)
+		switch rnd.Intn(3) {
+		case 0:
+			for range t.Iter().All() {
+				break
+			}
+		case 1:
+			if s := t.Snapshot(); s != nil {
+				s.Len()
+				s.Abort()
+			}
+		}
+	}
+	if rnd.Pct(35) && len(tr.committed) > 0 {
+		// scripted: a SIZE-NEUTRAL transaction (one registered route deleted, one new route added), read
+		// through Iter()/Snapshot() after its last write, then committed
+		var reg [][2]string
+		for k := range tr.committed {
+			reg = append(reg, k)
+		}
+		sort.Slice(reg, func(i, j int) bool { return reg[i][0]+reg[i][1] < reg[j][0]+reg[j][1] })
+		a := hx.Pick(rnd, reg)
+		t := f.Txn(true)
+		tr.begin()
+		_, err := t.Delete(a[0], a[1])
+		tr.del(a[0], a[1], err)
+		for _, p := range pool {
+			if !tr.cur()[[2]string{a[0], p}] && p != a[1] {
+				if _, err := t.Handle(a[0], p, rt.Noop); err == nil {
+					tr.add(a[0], p, nil)
+					break
+				}
+			}
+		}
+		txnRead(t)
+		t.Commit()
+		tr.commit()
+	}
 	for i := 0; i < steps; i++ {
 		m, p := hx.Pick(rnd, methods), hx.Pick(rnd, pool)
+		if txn != nil && rnd.Pct(8) {
+			txnRead(txn)
+		}
 		switch r := rnd.Intn(100); {
 		case r < 45:
 			var err error
@@ -594,6 +636,9 @@ func mutate(rnd *hx.Rand, f *fox.Router, pool []string, methods []string, steps 
 				txn = f.Txn(true)
 				tr.begin()
 			} else if rnd.Bool() {
+				if rnd.Pct(40) {
+					txnRead(txn)
+				}
 				txn.Commit()
 				tr.commit()
 				txn = nil
@@ -1019,6 +1064,134 @@ func c07OrderSweep(rnd *hx.Rand, opts []fox.GlobalOption, cs *hx.Cases, st *hx.S
 				}
 			}
 		}
+	}
+	// permutation families: sets of 5 overlapping patterns ({param} and *{catch-all} siblings next to static
+	// text on consecutive levels, so a lookup keeps several alternatives pending), ALL 120 insertion orders,
+	// half of them on a router that first held (and lost) a few deep routes; reference = sorted order
+	permFams := [][]string{
+		{"/a/b", "/a/{p2}", "/a/*{c2}", "/{p1}", "/*{c1}"},
+		{"/a/b/c", "/a/{p}/c", "/a/*{w}", "/{q}/b/d", "/*{v}"},
+		{"h.x/a/b", "h.x/a/{p}", "h.x/*{w}", "{s}.x/a/b", "/a/*{c}"},
+	}
+	nperm := 2
+	if tier == "thorough" {
+		nperm = 12
+	}
+	for i := 0; i < nperm; i++ {
+		ov, _ := rt.OverlapSet(rnd, 9)
+		var fam []string
+		seen := map[string]bool{}
+		for _, q := range ov {
+			f, _ := fox.New(opts...)
+			if _, err := f.Handle("GET", q, rt.Noop); err == nil && !seen[q] && len(fam) < 5 {
+				seen[q] = true
+				fam = append(fam, q)
+			}
+		}
+		if len(fam) == 5 {
+			permFams = append(permFams, fam)
+		}
+	}
+	for _, fam := range permFams {
+		st.Count("order-sweep:perm-families")
+		type probe struct{ h, p string }
+		var probes []probe
+		for _, q := range fam {
+			for k := 0; k < 6; k++ {
+				h, p := rt.SplitPattern(rt.Instantiate(rnd, q, false))
+				switch k {
+				case 1:
+					p += "x" // the last static text fails late
+				case 2:
+					p = rt.PerturbPath(rnd, p)
+				case 3:
+					if i := strings.LastIndexByte(p, '/'); i > 0 {
+						p = p[:i] + "x" + p[i:]
+					}
+				case 4:
+					p += "/y"
+				}
+				probes = append(probes, probe{h, p})
+			}
+		}
+		sorted := append([]string(nil), fam...)
+		sort.Strings(sorted)
+		ref, err := fox.New(opts...)
+		hx.Fatal(err)
+		refOK := true
+		for _, q := range sorted {
+			if _, err := ref.Handle("GET", q, rt.Noop); err != nil {
+				refOK = false
+			}
+		}
+		if !refOK {
+			continue
+		}
+		perm := []int{0, 1, 2, 3, 4}
+		var rec func(k int)
+		cnt := 0
+		rec = func(k int) {
+			if k == len(perm) {
+				cnt++
+				histories++
+				a, err := fox.New(opts...)
+				hx.Fatal(err)
+				var trace []string
+				if cnt%2 == 0 {
+					// depth / size counters raised by routes that are gone again
+					deep := []string{"/z/1/2/3/4/5", "/z/1/2/3/4/6", "/z/1/{k}/3", "/z/1/2/*{r}"}
+					for _, q := range deep {
+						a.Handle("GET", q, rt.Noop)
+					}
+					for _, q := range deep {
+						a.Delete("GET", q)
+					}
+					trace = append(trace, "Handle+Delete 4 deep routes under /z")
+				}
+				for _, i := range perm {
+					if _, err := a.Handle("GET", fam[i], rt.Noop); err != nil {
+						return // this order is refused (conflict rules are order dependent only for invalid sets)
+					}
+					trace = append(trace, "Handle "+fam[i])
+				}
+				ok, diff := true, ""
+				for _, pr := range probes {
+					for _, m := range []string{"GET", "OPTIONS"} {
+						la, lb := rt.Lookup(a, m, pr.h, pr.p), rt.Lookup(ref, m, pr.h, pr.p)
+						sa, aa := rt.Serve(a, m, pr.h, pr.p)
+						sb, ab := rt.Serve(ref, m, pr.h, pr.p)
+						if fmt.Sprint(la) != fmt.Sprint(lb) || sa != sb || aa != ab {
+							ok = false
+							diff = fmt.Sprintf("%s host=%q path=%q: A=%v %d %q B=%v %d %q", m, pr.h, pr.p, la, sa, aa, lb, sb, ab)
+						}
+					}
+				}
+				if !ok {
+					failing++
+					if failing <= 8 {
+						var items []string
+						for _, q := range sorted {
+							ps, hs, _ := ref.VerifParseRoute(q)
+							if hs < 0 {
+								hs = 0
+							}
+							items = append(items, fmt.Sprintf("(%s, %s, %d, %d)", hx.Bytes("GET"), hx.Bytes(q), ps, hs))
+						}
+						da, db := a.VerifDump(), ref.VerifDump()
+						cs.Add(fmt.Sprintf("{| c7_set := %s; c7_treeA := %s; c7_treeB := %s; c7_depthB := %d; c7_maxpB := %d; c7_probes_equal := false |}",
+							hx.List(items), rt.RootsTerm(da, nil), rt.RootsTerm(db, nil), db.Depth, db.MaxParams),
+							fmt.Sprintf("order sweep (permutations): history [%s] vs fresh fill in sorted order %v; equal=false %s", strings.Join(trace, "; "), sorted, diff))
+					}
+				}
+				return
+			}
+			for i := k; i < len(perm); i++ {
+				perm[k], perm[i] = perm[i], perm[k]
+				rec(k + 1)
+				perm[k], perm[i] = perm[i], perm[k]
+			}
+		}
+		rec(0)
 	}
 	st.Count(fmt.Sprintf("order-sweep:histories=%d", histories))
 	st.Count(fmt.Sprintf("order-sweep:failing=%d", failing))
